@@ -331,6 +331,18 @@ def eval_shards(prop: Prop, terms, tag="s"):
 # --------------------------------------------------------------------------
 # findings
 # --------------------------------------------------------------------------
+def attributed(prop, case, obs, verdict):
+    """prop.finding_of(case, obs[, verdict]): plug-ins that take a third parameter get the
+    per-predicate verdict of the shard (so attribution can use Coq-side clause predicates
+    listed in prop.preds)."""
+    import inspect
+    try:
+        n = len(inspect.signature(prop.finding_of).parameters)
+    except (TypeError, ValueError):
+        n = 2
+    return prop.finding_of(case, obs, verdict) if n >= 3 else prop.finding_of(case, obs)
+
+
 def load_findings(prop_id):
     path = os.path.join(VERIF, "KNOWN_FINDINGS.json")
     if not os.path.exists(path):
@@ -535,7 +547,7 @@ def run_check(prop: Prop, tier: str, seed: int) -> int:
             cl = prop.classify(c, o)
             hist[cl] = hist.get(cl, 0) + 1
             if not r["spec"]:
-                fid = prop.finding_of(c, o) if r["corr"] else None
+                fid = attributed(prop, c, o, r) if r["corr"] else None
                 if r["corr"] and fid in known:
                     findings_seen[fid] = findings_seen.get(fid, 0) + 1
                 else:
@@ -562,7 +574,7 @@ def run_check(prop: Prop, tier: str, seed: int) -> int:
             def still_fails(c, o, r):
                 if r["spec"]:
                     return False
-                return not (r["corr"] and prop.finding_of(c, o) in known)
+                return not (r["corr"] and attributed(prop, c, o, r) in known)
             small_case = run.shrink(cases[i], still_fails)
             o2 = prop.run_impl(small_case)
             path = run.write_replay("spec-violation", small_case, o2,
@@ -582,13 +594,13 @@ def run_check(prop: Prop, tier: str, seed: int) -> int:
             if pool:
                 pobs, pres = run.evaluate(pool, "search")
                 for c, o, r in zip(pool, pobs, pres):
-                    if not r["spec"] and not (r["corr"] and prop.finding_of(c, o) in known):
+                    if not r["spec"] and not (r["corr"] and attributed(prop, c, o, r) in known):
                         found = (c, o, r)
                         break
                 cov["search_evaluations"] = len(pool)
             if found:
                 def still_fails(c, o, r):
-                    return not r["spec"] and not (r["corr"] and prop.finding_of(c, o) in known)
+                    return not r["spec"] and not (r["corr"] and attributed(prop, c, o, r) in known)
                 sc = run.shrink(found[0], still_fails)
                 path = run.write_replay("spec-violation", sc, prop.run_impl(sc),
                                         {"original_case": found[0], "found_by": "search after broken obligation"})
